@@ -9,9 +9,10 @@ RULE = ('every function of 3 variables (sampled at 4-5) x every pair of (source 
         'order != level order), through BDD.copy, dd.bdd.copy_bdd, dd.autoref.copy_bdd, dd.autoref.BDD.copy, '
         'dd._copy.copy_bdd / copy_bdds_from (shared memo over several roots); checked: truth table by name in the '
         'target, target wf() and canonical (same reference as building there), source untouched (tables identical), '
-        'copy_vars reproduces names and levels. non-trivial: non-constant and orders differ; distinct = (tt, orders, route).')
+        'copy_vars reproduces names and levels; in the sampled sequences the source (sometimes the target) collects garbage between '
+        'copies into the same target, so node numbers of the source are re-used. non-trivial: non-constant and orders differ; distinct = (tt, orders, route).')
 EXHAUSTIVE = {'quick': False, 'thorough': False}
-REQUIRED_COUNTERS = ['copy-checked', 'copy_vars-checked']
+REQUIRED_COUNTERS = ['copy-checked', 'copy_vars-checked', 'copies-after-source-collection']
 NAMES = ['x', 'y', 'z']
 
 
@@ -138,6 +139,13 @@ def case_sampled(c, res):
         ms._bdd.incref(u)
         _check_copy(ms, mt, names, names_t, u, t, res, rnd, i % 6)
         ms._bdd.decref(u)
+        if i % 3 != 0:
+            # collection in the *source* only: its node numbers are re-used by the next functions, while the target keeps whatever it
+            # (or the copy routine) remembered about them
+            ms.collect_garbage()
+            res.count('copies-after-source-collection')
+        elif i % 6 == 3:
+            mt.collect_garbage()
         keys.append((t, tuple(p), tuple(to)))
     res.evals += c['count'] - 1
     del held
